@@ -881,6 +881,8 @@ def oracle_keys_values(cases):
                 if any(ch in body for ch in '[]') or 'map' in body:
                     continue            # nested values: not parsed here
                 pairs = [p.split(':', 1) for p in body.split(' ') if ':' in p]
+                if any(len(pr) < 2 or pr[1] == '' for pr in pairs) or '  ' in lines[i + 2] or lines[i + 2] in ('[]', '[ ]') and pairs:
+                    continue            # an empty-string value: the printed listing cannot be told from a shorter one
                 ks = lines[i + 1][1:-1].split(' ') if lines[i + 1] != '[]' else []
                 vs = lines[i + 2][1:-1].split(' ') if lines[i + 2] != '[]' else []
                 d = dict(pairs)
